@@ -406,13 +406,46 @@ func (fl *Flow) reachableWithoutEdge(eb, esi, tblk int) bool {
 	return false
 }
 
-// GuardsOfNode returns the guards of the block containing n.
+// GuardsOfNode returns the guards of the block containing n, plus the short-circuit guards inside
+// the expression that contains n (go/cfg does not split && and ||): in `A && B`, A holds while B is
+// evaluated; in `A || B`, A is false while B is evaluated.
 func (fl *Flow) GuardsOfNode(n ast.Node) []Guard {
-	b, _, ok := fl.Locate(n)
+	b, i, ok := fl.Locate(n)
 	if !ok {
 		return nil
 	}
-	return fl.GuardsOf(b)
+	out := fl.GuardsOf(b)
+	root := fl.G.Blocks[b].Nodes[i]
+	var stack []ast.Node
+	done := false
+	ast.Inspect(root, func(x ast.Node) bool {
+		if done {
+			return false
+		}
+		if x == nil {
+			stack = stack[:len(stack)-1]
+			return true
+		}
+		if _, isLit := x.(*ast.FuncLit); isLit {
+			stack = append(stack, x)
+			return true
+		}
+		stack = append(stack, x)
+		if x == n {
+			for k := len(stack) - 2; k >= 0; k-- {
+				if be, ok := stack[k].(*ast.BinaryExpr); ok && (be.Op == token.LAND || be.Op == token.LOR) {
+					child := stack[k+1]
+					if child.Pos() >= be.Y.Pos() && child.End() <= be.Y.End() {
+						out = append(out, Guard{Cond: be.X, True: be.Op == token.LAND})
+					}
+				}
+			}
+			done = true
+			return false
+		}
+		return true
+	})
+	return out
 }
 
 // Atoms splits a guard into the atomic conditions it implies: (a && b) true ⇒ a true, b true;
